@@ -1,6 +1,10 @@
 package loadbalancer
 
 import (
+	"net/url"
+	"strconv"
+	"time"
+
 	"github.com/0xReLogic/Helios/internal/verifrt"
 )
 
@@ -122,6 +126,34 @@ func VerifC06RemoteAddrForms(strategy int, n int) {
 	b1 := lb.NextBackend(verifRequest(h + ":" + p1))
 	b2 := lb.NextBackend(verifRequest(h + ":" + p2))
 	verifrt.Assert(b1 != nil && b1 == b2, "a client keeps its backend regardless of its source port, also for IPv6 peers ([host]:port)")
+}
+
+// VerifC06EjectAfterTraffic: a pool of n backends (n up to 70: beyond any
+// machine-word sized bookkeeping) has served a client; the backend that served
+// it is then ejected. The client's next request goes to an eligible backend, not
+// to the ejected one - and after the backend has recovered, back to it.
+func VerifC06EjectAfterTraffic(strategy int, n int) {
+	lb := verifBareLB(strategy)
+	bs := make([]*Backend, n)
+	for i := range bs {
+		bs[i] = &Backend{Name: "b" + strconv.Itoa(i), URL: &url.URL{Scheme: "http", Host: "b" + strconv.Itoa(i) + ":80"}, IsHealthy: true, Weight: 1}
+		lb.strategy.AddBackend(bs[i])
+	}
+	r := verifRequest("198.51.100.7:999")
+	if n <= 8 {
+		r.Header.Set("X-Forwarded-For", verifrt.String("client", 2))
+	} else {
+		// a large pool: 64 concrete client addresses (the symbolic hash modulo a large n is too hard to fork on)
+		r.Header.Set("X-Forwarded-For", "203.0.113."+strconv.Itoa(verifrt.Choice("client", 64)))
+	}
+	first := lb.findHealthyBackend(r)
+	verifrt.Assert(first != nil, "a healthy pool serves")
+	lb.MarkBackendUnhealthy(first, time.Hour)
+	second := lb.findHealthyBackend(r)
+	verifrt.Assert(second != nil && second != first, "after its backend has been ejected the client is served by another, eligible backend")
+	verifrt.Advance(2 * time.Hour)
+	third := lb.findHealthyBackend(r)
+	verifrt.Assert(third == first, "once the backend is eligible again the client returns to it (same eligible set, same choice)")
 }
 
 // VerifC06AffinityConcurrent: requests of two different clients handled at the
